@@ -251,7 +251,13 @@ def explore(body, prefix=(), bound=None, stats=None, expand_only=False, audit_ev
         stats.transitions += new_nodes + (0 if (first and not p) else 1)
         first = False
         stats.max_depth = max(stats.max_depth, len(ctx.choices))
-        if ctx.failures:
+        if ctx.failures and all(_viol_key(f) in stats.viol and len(stats.viol[_viol_key(f)][1]) >= Stats.MAX_EX
+                                for f in ctx.failures):
+            # every (clause, key) of this execution already has its audited examples: only count
+            for f in ctx.failures:
+                stats.n_violations += 1
+                stats.viol[_viol_key(f)][0] += 1
+        elif ctx.failures:
             # determinism audit: a violation must reproduce identically
             s2 = Stats()
             c2 = _run(body, p, s2, bound)     # same prefix: the same nodes count as fresh
